@@ -1685,6 +1685,11 @@ class Parser:
                 # GH#269 unified accumulator: bare_words buffer + items list
                 bare_words: list[str] = []
                 items: list[str] = []
+                # I4: every word of the run in order, and whether any flush joined
+                # several bare words into one string (that rewrite needs a receipt;
+                # merely keeping annotated words apart does not coalesce anything)
+                run_words: list[str] = [parts[0]]
+                coalesced = False
 
                 # Process the first token (already consumed)
                 if _has_annotation(parts[0]):
@@ -1697,6 +1702,7 @@ class Parser:
                     if self.current().type in EXPRESSION_OPERATORS:
                         # Flush bare_words before operator
                         if bare_words:
+                            coalesced = coalesced or len(bare_words) > 1
                             items.append(" ".join(bare_words))
                             bare_words = []
                         # Handle expression: collect operator and remaining tokens
@@ -1713,6 +1719,20 @@ class Parser:
                                 self.advance()
                             else:
                                 break
+                        # I4 Audit: words coalesced in front of the operator get a receipt,
+                        # as in the plain expression path below
+                        if coalesced:
+                            self.warnings.append(
+                                {
+                                    "type": "lenient_parse",
+                                    "subtype": "multi_word_coalesce",
+                                    "original": run_words,
+                                    "result": " ".join(str(p) for p in expr_parts),
+                                    "context": "expression_path",
+                                    "line": start_line,
+                                    "column": start_column,
+                                }
+                            )
                         # Merge: items collected so far become space-joined prefix,
                         # then operator expression appended
                         if expr_parts:
@@ -1738,9 +1758,11 @@ class Parser:
                         annotation = self._consume_bracket_annotation(capture=True)
                         if annotation is not None:
                             cur_val = f"{cur_val}<{annotation}>"
+                    run_words.append(cur_val)
                     if _has_annotation(cur_val):
                         # Flush accumulated bare words before annotated token
                         if bare_words:
+                            coalesced = coalesced or len(bare_words) > 1
                             items.append(" ".join(bare_words))
                             bare_words = []
                         items.append(cur_val)
@@ -1749,6 +1771,7 @@ class Parser:
 
                 # Flush any remaining bare words
                 if bare_words:
+                    coalesced = coalesced or len(bare_words) > 1
                     items.append(" ".join(bare_words))
 
                 # GH#276 round 2: Handle trailing bracket annotations.
@@ -1761,6 +1784,21 @@ class Parser:
                         if annotation is not None:
                             last = items[-1] if items else ""
                             items[-1] = f"{last} [{annotation}]"
+
+                # I4 Audit: bare words were coalesced inside this run - same receipt as
+                # the plain coalescing path
+                if coalesced:
+                    self.warnings.append(
+                        {
+                            "type": "lenient_parse",
+                            "subtype": "multi_word_coalesce",
+                            "original": run_words,
+                            "result": items[0] if len(items) == 1 else list(items),
+                            "context": "annotated_run",
+                            "line": start_line,
+                            "column": start_column,
+                        }
+                    )
 
                 # Return as ListValue if multiple items, scalar if single
                 if len(items) == 1:
